@@ -30,7 +30,8 @@ BUDGET = {"quick": dict(cases=1200, seconds=60, shards=4),
           "thorough": dict(cases=100000, seconds=600, shards=16)}
 REQUIRED = ["mon:parseval", "mon:amplitude-squared-scaling", "mon:welch-average", "mon:diffuse-field-from-psds",
             "mon:smoothed-psd-is-smoothed-raw-psd", "mon:differentiation-analytic", "mon:flat-response-analytic",
-            "mon:pole-zero-response-analytic"]
+            "mon:pole-zero-response-analytic",
+            "mon:response-then-differentiation-analytic"]
 
 DTS = [0.002, 0.004, 0.005, 0.01, 0.02, 1 / 75, 1 / 150, 0.0078125]
 
@@ -245,7 +246,8 @@ def fam_response(ctx, rng):
     ctx.describe(L=L, dt=dt, alpha=alpha, flat=flat, sensitivity=S, normalization=A0, poles=[str(p) for p in poles], zeros=[str(z) for z in zeros])
     itf = InstrumentTransferFunction(poles, zeros, S, A0)
     rec = gen.make_recording(*[a.copy() for a in arrs], dt)
-    st = pre_settings(alpha, itf=itf)
+    both = bool(rng.random() < 0.4)       # response removal AND differentiation in one call (one detrend, one taper)
+    st = pre_settings(alpha, itf=itf, differentiate=both)
     out = hvsrpy.preprocess([rec], st)
     ctx.count("preprocess_calls")
     n = st.fft_settings["n"]
@@ -264,10 +266,22 @@ def fam_response(ctx, rng):
             inv[nz] = 1.0 / Hf[nz]
             inv[0] = 0.0
             want = np.fft.irfft(Y * inv, n)[:L]
+        if both:
+            W = np.fft.fft(want, n)
+            D = 2j * np.pi * np.fft.fftfreq(n, dt) * W
+            if n % 2 == 0:
+                D[n // 2] = 0.0
+            want = np.real(np.fft.ifft(D))[:L]
         got = getattr(out[0], comp).amplitude
         e = float(np.max(np.abs(got - want)) / max(np.max(np.abs(want)), 1e-300)) if got.shape == want.shape else np.inf
         worst = max(worst, e)
         ok = ok and e <= 1e-8
+    if both:
+        ctx.check(ok, "response-then-differentiation-analytic", "series after response removal and differentiation differs from "
+                  "the spectral derivative of the response-corrected, once-tapered series", worst_relative_error=worst, L=L, dt=dt,
+                  alpha=alpha, n=n, flat=flat)
+        ctx.nontrivial(["resp+diff", flat, L, dt, alpha])
+        return
     ctx.check(ok, "flat-response-analytic" if flat else "pole-zero-response-analytic",
               "series after instrument-response removal differs from the analytic expectation",
               worst_relative_error=worst, L=L, dt=dt, alpha=alpha, n=n, sensitivity=S, normalization=A0)
